@@ -6,6 +6,7 @@ mod c23;
 mod fixtures;
 mod pipe;
 mod sched;
+mod util;
 
 fn main() {
     let args = Args::parse();
